@@ -73,6 +73,7 @@ func (c *Ctx) tagSwitches(pkgs ...string) []*tagSwitch {
 				if obj == nil {
 					continue
 				}
+				fd = normDecl(pk, fd)
 				ord := 0
 				ast.Inspect(fd.Body, func(n ast.Node) bool {
 					sw, isSw := n.(*ast.SwitchStmt)
@@ -164,11 +165,49 @@ func clauseFails(info *types.Info, cc *ast.CaseClause) bool {
 	return false
 }
 
+// followingStmts: the statements after target in the statement list that contains it.
+func followingStmts(root ast.Node, target ast.Stmt) []ast.Stmt {
+	var out []ast.Stmt
+	find := func(list []ast.Stmt) {
+		for i, s := range list {
+			if s == target {
+				out = list[i+1:]
+			}
+		}
+	}
+	ast.Inspect(root, func(n ast.Node) bool {
+		switch v := n.(type) {
+		case *ast.BlockStmt:
+			find(v.List)
+		case *ast.CaseClause:
+			find(v.Body)
+		case *ast.CommClause:
+			find(v.Body)
+		}
+		return out == nil
+	})
+	return out
+}
+
+// straightLine: no statement of the list branches or loops.
+func straightLine(list []ast.Stmt) bool {
+	for _, s := range list {
+		switch s.(type) {
+		case *ast.AssignStmt, *ast.ExprStmt, *ast.ReturnStmt, *ast.DeclStmt, *ast.IncDecStmt:
+		default:
+			return false
+		}
+	}
+	return len(list) > 0
+}
+
 // TagDispatch implements T-DISPATCH.
 func (c *Ctx) TagDispatch(pkgs ...string) []core.Ob {
 	var obs []core.Ob
 	sws := c.tagSwitches(pkgs...)
-	sort.Slice(sws, func(i, j int) bool { return sws[i].fn < sws[j].fn || (sws[i].fn == sws[j].fn && sws[i].ordinal < sws[j].ordinal) })
+	sort.Slice(sws, func(i, j int) bool {
+		return sws[i].fn < sws[j].fn || (sws[i].fn == sws[j].fn && sws[i].ordinal < sws[j].ordinal)
+	})
 	// TagEnd may be a value only for dynbt.Value (root "no value"); every other dispatcher must fail on it
 	endAllowed := map[string]string{
 		"nbt/dynbt.(*Value).UnmarshalNBT": "dynbt.Value deliberately represents 'no value' as a root TagEnd; non-empty lists of TagEnd are rejected separately",
@@ -186,7 +225,9 @@ func (c *Ctx) TagDispatch(pkgs ...string) []core.Ob {
 		d := core.Ob{Rule: "T-DISPATCH", Key: key + ":unknown-tag-is-error", Pos: c.P.Pos(ts.pos), Func: ts.fn, Armed: true, Status: core.OK,
 			Want: "a tag id that no case handles leads to an error (a default clause that fails)"}
 		if ts.deflt == nil {
-			if full {
+			if after := followingStmts(ts.decl.Body, ts.sw); full && straightLine(after) && (&wctx{info: ts.pkg.TypesInfo}).returnsFreshError(after) {
+				d.Got = "no default clause; the statement after the switch fails with an error (implicit default)"
+			} else if full {
 				d.Status, d.Got = core.Violated, "no default clause: an unknown tag id is silently accepted"
 			} else {
 				d.Got = "partial dispatch without default (falls through to shared handling)"
@@ -282,6 +323,7 @@ func (c *Ctx) encoderKindTable() (map[string]int64, map[int64]string, token.Pos,
 			if !ok || cand.Body == nil {
 				continue
 			}
+			cand = normDecl(pk, cand)
 			n := 0
 			ast.Inspect(cand.Body, func(x ast.Node) bool {
 				cc, ok := x.(*ast.CaseClause)
@@ -505,15 +547,23 @@ func (c *Ctx) ReflKind() []core.Ob {
 				}
 			}
 		}
-		var walk func(n ast.Node, kinds map[string]bool)
-		walk = func(node ast.Node, kinds map[string]bool) {
+		var tags []string
+		for _, e := range cc.List {
+			if nm, _, ok := tagConst(info, e); ok {
+				tags = append(tags, nm)
+			}
+		}
+		visiting := map[*ast.FuncDecl]bool{}
+		var walk func(info *types.Info, valObj types.Object, n ast.Node, kinds map[string]bool)
+		walk = func(info *types.Info, valObj types.Object, node ast.Node, kinds map[string]bool) {
+			aliases := kindAliases(info, node, valObj)
 			ast.Inspect(node, func(x ast.Node) bool {
 				switch v := x.(type) {
 				case *ast.SwitchStmt:
 					// switch val.Kind() { ... } refines
-					if v.Tag != nil && isKindOf(info, v.Tag, valObj) {
+					if id, isId := ast.Unparen(v.Tag).(*ast.Ident); v.Tag != nil && (switchesOnKindOf(info, v, valObj) || (isId && aliases[info.Uses[id]])) {
 						if v.Init != nil {
-							walk(v.Init, kinds)
+							walk(info, valObj, v.Init, kinds)
 						}
 						listed := map[string]bool{}
 						for _, s := range v.Body.List {
@@ -540,7 +590,7 @@ func (c *Ctx) ReflKind() []core.Ob {
 								}
 							}
 							for _, b := range c2.Body {
-								walk(b, sub)
+								walk(info, valObj, b, sub)
 							}
 						}
 						return false
@@ -551,6 +601,41 @@ func (c *Ctx) ReflKind() []core.Ob {
 						return false
 					}
 				case *ast.CallExpr:
+					// the value handed on to a helper of the module: the helper's body runs under the same kinds
+					if fo := calleeObj(info, v); fo != nil && fo.Pkg() != nil && strings.HasPrefix(fo.Pkg().Path(), core.ModPath) {
+						for ai, arg := range v.Args {
+							id, ok := ast.Unparen(arg).(*ast.Ident)
+							if !ok || info.Uses[id] != valObj {
+								continue
+							}
+							hd, hpk := c.declOfObj(fo)
+							if hd == nil || visiting[hd] || hd == ws.decl {
+								continue
+							}
+							sig := fo.Type().(*types.Signature)
+							if ai >= sig.Params().Len() || sig.Variadic() {
+								continue
+							}
+							hn := normDecl(hpk, hd)
+							// the parameter object: by position in the syntax
+							var pobj types.Object
+							idx := 0
+							for _, f := range hn.Type.Params.List {
+								for _, nm := range f.Names {
+									if idx == ai {
+										pobj = hpk.TypesInfo.Defs[nm]
+									}
+									idx++
+								}
+							}
+							if pobj == nil {
+								continue
+							}
+							visiting[hd] = true
+							walk(hpk.TypesInfo, pobj, hn.Body, kinds)
+							visiting[hd] = false
+						}
+					}
 					sel, ok := v.Fun.(*ast.SelectorExpr)
 					if !ok {
 						return true
@@ -572,12 +657,6 @@ func (c *Ctx) ReflKind() []core.Ob {
 						}
 					}
 					sort.Strings(bad)
-					var tags []string
-					for _, e := range cc.List {
-						if nm, _, ok := tagConst(info, e); ok {
-							tags = append(tags, nm)
-						}
-					}
 					o := core.Ob{Rule: "R-REFLKIND", Key: fmt.Sprintf("writeValue:%s:val.%s#%d", strings.Join(tags, "+"), sel.Sel.Name, n), Pos: c.P.Pos(v.Pos()), Func: ws.fn, Armed: true, Status: core.OK,
 						Want: "reflect.Value." + sel.Sel.Name + " is valid for every kind the encoder's table routes into this case"}
 					if len(bad) > 0 {
@@ -590,7 +669,7 @@ func (c *Ctx) ReflKind() []core.Ob {
 			})
 		}
 		for _, b := range cc.Body {
-			walk(b, reach)
+			walk(info, valObj, b, reach)
 		}
 	}
 	_ = tagNames
@@ -598,6 +677,58 @@ func (c *Ctx) ReflKind() []core.Ob {
 		obs = append(obs, core.Ob{Rule: "R-REFLKIND", Key: "accessor-count", Status: core.Violated, Armed: true, Want: ">= 8 kind-restricted accessor calls found in writeValue", Got: fmt.Sprint(n)})
 	}
 	return obs
+}
+
+// kindAliases: variables defined once as obj.Kind() and never reassigned.
+func kindAliases(info *types.Info, node ast.Node, obj types.Object) map[types.Object]bool {
+	out := map[types.Object]bool{}
+	reassigned := map[types.Object]bool{}
+	ast.Inspect(node, func(n ast.Node) bool {
+		as, ok := n.(*ast.AssignStmt)
+		if !ok {
+			return true
+		}
+		for i, l := range as.Lhs {
+			id, ok := l.(*ast.Ident)
+			if !ok {
+				continue
+			}
+			if as.Tok == token.DEFINE && len(as.Lhs) == len(as.Rhs) && info.Defs[id] != nil {
+				if call, ok := ast.Unparen(as.Rhs[i]).(*ast.CallExpr); ok && isKindOf(info, call, obj) {
+					if sel, ok := call.Fun.(*ast.SelectorExpr); ok && sel.Sel.Name == "Kind" {
+						out[info.Defs[id]] = true
+					}
+				}
+			} else if o := info.Uses[id]; o != nil {
+				reassigned[o] = true
+			}
+		}
+		return true
+	})
+	for o := range reassigned {
+		delete(out, o)
+	}
+	// obj itself reassigned (val = val.Elem()) invalidates aliases taken before; the
+	// unwrap loop is the only such idiom and precedes the dispatch
+	return out
+}
+
+// switchesOnKindOf: the switch's tag is obj.Kind(), directly or through a
+// variable the switch's init statement binds to it.
+func switchesOnKindOf(info *types.Info, sw *ast.SwitchStmt, obj types.Object) bool {
+	if isKindOf(info, sw.Tag, obj) {
+		return true
+	}
+	id, ok := ast.Unparen(sw.Tag).(*ast.Ident)
+	if !ok {
+		return false
+	}
+	if as, ok := sw.Init.(*ast.AssignStmt); ok && len(as.Lhs) == 1 && len(as.Rhs) == 1 {
+		if l, ok := as.Lhs[0].(*ast.Ident); ok && info.ObjectOf(l) == info.ObjectOf(id) {
+			return isKindOf(info, as.Rhs[0], obj)
+		}
+	}
+	return false
 }
 
 // isKindOf: e mentions obj.Kind() (possibly obj.Type().Elem().Kind() is NOT a kind of obj itself).
